@@ -18,6 +18,7 @@ TRUSTED = [
     "from the source (Tie A)",
     "h11's own state machine (when their_state is DONE: response complete and keep-alive allowed) is not modelled; its effect is observed: every "
     "server in the exploration records a further request that arrives before the previous response was completely read",
+    "Sys is tied to the real pool step by step (harness/sysconf.py): after every scheduling step of explored runs the real pool is projected onto Sys's state space and the Lean driver searches Sys.step breadth-first for a model run between consecutive observations (this run)",
 ]
 ASSUMPTIONS = ["the server sends exactly one well-framed final response per request (the property's own premise)",
                "Sys: the admissible actions of C05 (no cancellation between assignment and start: findings F-C05-e/f)"]
@@ -45,6 +46,8 @@ H2_PROFILE = dict(max_connections=1, init_max_streams=5, p_rst=0.1, p_cancel=0.2
 def run(ctx, driver):
     rng = ctx.rng
     rec = propbase.Rec(ctx, ID)
+    import sysconf
+    sysconf.run_conformance(ctx, rec, 60, 2000)
     for prof in H1_PROFILES:
         concur.explore(ctx, rec, ID, prof, 300, 8000, ["C01:"])
     # HTTP/2 multiplexing
